@@ -15,8 +15,8 @@ for i, rd, conf, c, wi, s in rows:
 p = os.path.join(ROOT, "RESULTS.md")
 s = open(p).read()
 a = s.index("| id |")
-b = s.index("\n## Strengthenings")
-s = s[:a] + tab + s[b:]
+b = s.index("\n\n", a)   # the table ends at the first blank line
+s = s[:a] + tab.rstrip("\n") + s[b:]
 open(p, "w").write(s)
 n = len(rows); caught = sum(1 for r in rows if r[3]); wi = sum(1 for r in rows if r[4])
 print("%d changes, %d caught, %d with input" % (n, caught, wi))
